@@ -26,7 +26,9 @@ IsMove(e) == e.op \notin {"NewIter", "EndIter", "Modified"}
 Stale == -7
 Absolute(op) == op \in {"Begin", "End", "First", "Last"}
 
-C08(e) ==
+\* a relative move from the unspecified position of a kept iterator: outside C08 (C17 still requires it to return silently)
+StaleMove(e) == IsMove(e) /\ pos = Stale /\ ~Absolute(e.op)
+C08(e) == StaleMove(e) \/
   /\ Completed(e)
   /\ (IsMove(e) /\ (pos # Stale \/ Absolute(e.op))) =>
        LET q == Move(seq, pos, e.op, e.p) IN
